@@ -16,7 +16,8 @@ DECLINES = ("NotImplementedError",)
 def assert_site(what):
     """'/repo/symengine/x.h:12: cond' from a VerifAssertFailure message"""
     w = what.replace("SYMENGINE_ASSERT failed: ", "")
-    return w.replace("/repo/symengine/", "")[:120]
+    k = w.find("/symengine/")      # any checkout (/repo or a scratch worktree)
+    return (w[k + len("/symengine/"):] if k >= 0 else w)[:120]
 
 
 def symbolic_identity_below(t):
@@ -184,7 +185,9 @@ class C26(Check):
                       mx.case_tree(False, 0.25), mx.case_tree(True, 0.0), mx.case_tree(True, 0.2))
         return st.fixed_dictionaries({"trees": st.lists(t, min_size=1, max_size=5)})
 
-    # ---- known defects excluded by construction (see the final report / known findings)
+    # ---- known defects excluded by construction while their tag is active (GUIDE: known findings protocol;
+    # tags: mul_zero_shape mul_identity_scalar hadamard_symmetric toeplitz_oob mul_symbolic_identity_mismatch).
+    # With an inactive tag the input is run and judged normally.
     def known_defect(self, n, nodes, reg, res):
         if n.t[0] != "mul":
             return None
@@ -192,13 +195,15 @@ class C26(Check):
         mats = [k for k in kids if not k.scalar]
         heads = [(B(res[reg[k.idx]]) or [None])[0] for k in mats]
         # matrix_mul returns the first ZeroMatrix factor itself, whatever the shape of the product
-        for k, h in zip(mats, heads):
-            if h == "ZeroMatrix":
-                if k.shape != n.shape:
-                    return "mul_zero_shape"
-                break
+        if self.tag_active("mul_zero_shape"):
+            for k, h in zip(mats, heads):
+                if h == "ZeroMatrix":
+                    if k.shape != n.shape:
+                        return "mul_zero_shape"
+                    break
         # matrix_mul drops the scalar when all matrix factors are identities
-        if heads and all(h == "IdentityMatrix" for h in heads) and len(mats) < len(kids):
+        if self.tag_active("mul_identity_scalar") and heads and all(h == "IdentityMatrix" for h in heads) \
+                and len(mats) < len(kids):
             return "mul_identity_scalar"
         return None
 
@@ -207,11 +212,12 @@ class C26(Check):
         stmts = []
         for tree in case["trees"]:
             nodes = mx.model(mx.flatten(tree))
-            if any(n.t[0] == "mul" and n.mismatch not in (None, "below") and symbolic_identity_below(n.t)
-                   for n in nodes):
+            if self.tag_active("mul_symbolic_identity_mismatch") and any(
+                    n.t[0] == "mul" and n.mismatch not in (None, "below") and symbolic_identity_below(n.t)
+                    for n in nodes):
                 # known finding: matrix_mul validates adjacent factors only, lets an identity of symbolic size
                 # pass, drops it and then multiplies the now adjacent, mismatching dense/diagonal factors
-                # (heap-buffer-overflow in mul_dense_dense & co).  Not run at all.
+                # (heap-buffer-overflow in mul_dense_dense & co).  Not run while the tag is active.
                 self.skip("known:mul_symbolic_identity_mismatch")
                 continue
             reg = {}
@@ -223,7 +229,8 @@ class C26(Check):
             for n in nodes:
                 if not n.scalar:
                     reg[("facts", n.idx)] = len(stmts)
-                    stmts.append(["mx_facts", R(reg[n.idx]), True])
+                    # guard: is_toeplitz of a wide dense matrix (out-of-bounds read) is not asked while that finding is known
+                    stmts.append(["mx_facts", R(reg[n.idx]), self.tag_active("toeplitz_oob")])
         res = self.run(stmts)
         for tree, nodes, reg in plans:
             self.judge_tree(tree, nodes, reg, stmts, res)
@@ -343,7 +350,7 @@ class C26(Check):
                 self.skip("known:toeplitz_oob")
                 continue
             if a not in adm[p]:
-                if p == "symmetric" and a == "F":
+                if p == "symmetric" and a == "F" and self.tag_active("hadamard_symmetric"):
                     heads = heads or mx.dump_heads(dump)
                     if "HadamardProduct" in heads:
                         # is_symmetric(HadamardProduct) = false as soon as one factor is not symmetric
